@@ -26,6 +26,10 @@ class PersistentThreadWorker(PersistentWorker, ThreadWorker):
         results_pipe = results_pipe or LocalPipe()
         self._args_pipe = LocalPipe()
         self._cleaned_up = False
+        # (re)set by _init_child, but the cleanup code - the only thing which can tell the consumers of the results
+        # that there will be no more of them - can run before that if the worker is terminated early
+        self._counter = 0
+        self._stop = False
         super().__init__(target, results_pipe, **kwargs)
 
     #
